@@ -141,8 +141,11 @@ def reshape(a: LamArray, shape):
 
 
 class NPLam:
-    """numpy model for the index code."""
+    """numpy model for the index code (integers are mathematical; dtypes are carried as names only)."""
     int64 = "int64"
+    int32 = "int32"
+    int_ = "int64"
+    intp = "int64"
 
     def zeros(self, shape, dtype=None):
         return LamArray(tuple(shape), lambda ix: z3.IntVal(0))
